@@ -18,6 +18,8 @@ for s in $SEEDS; do
   echo "seed=$s property=$prop exit=$rc violations=$nv $first"
   python3 - <<PY
 import json
-json.dump({"seed": "$s", "property": "$prop", "check": "bin/check $prop quick", "exit": $rc, "violation_lines": $nv, "detected": $rc == 1 and $nv > 0}, open("seeded/$s/detection.json", "w"), indent=1)
+benign = json.load(open("seeded/$s/meta.json")).get("benign", False)
+json.dump({"seed": "$s", "property": "$prop", "check": "bin/check $prop quick", "exit": $rc, "violation_lines": $nv, "benign": benign,
+           "as_expected": ($rc == 0 and $nv == 0) if benign else ($rc == 1 and $nv > 0)}, open("seeded/$s/detection.json", "w"), indent=1)
 PY
 done
